@@ -26,7 +26,7 @@ var harness = lib.Harness{
 	Rule: "corpus = the three refutation witnesses (F09 URI/CN split, F28 relay through a running honest holder, F29 identity without key) + honest handshakes; " +
 		"every single deviation of the quantifier x {Ed25519, bn256.g2} x {dial, accept}, on the real verifier closure (unit) and over real " +
 		"TLS 1.2/1.3 handshakes with a fresh honest onet router per case, with Router.UnauthOk false and true (tls; crash-prone inputs in a child process); pairs of deviations on the " +
-		"verifier; two overlapping dials of the honest host with the first answer held back until the second ClientHello is in (conc); seeded random field mutations of the honest certificate / chain / identity message / mid-link second identity; " +
+		"verifier; malformed onet-pubkey URIs; a genuine earlier connection of the impersonated server (prior); two overlapping dials of the honest host with the first answer held back until the second ClientHello is in (conc); seeded random field mutations of the honest certificate / chain / identity message / mid-link second identity; " +
 		"non-trivial = the peer presents at least one certificate; distinct = distinct Coq case term",
 	Shard:    400,
 	Generate: generate,
